@@ -34,6 +34,9 @@ type Data struct {
 
 const mark = "SECRET"
 
+// otherMark is carried by every other variable in the background-marks runs.
+const otherMark = "OTHER"
+
 var counters engine.Counter
 
 func gen(tier string, emit func(engine.Case) bool) {
@@ -196,6 +199,7 @@ func unmarkDeep(v cty.Value) cty.Value {
 
 // nullInSet reports whether a set somewhere in v has a null element.
 func nullInSet(v cty.Value) bool {
+	v = unmarkDeep(v)
 	found := false
 	_ = cty.Walk(v, func(_ cty.Path, x cty.Value) (bool, error) {
 		if x.IsKnown() && !x.IsNull() && x.Type().IsSetType() {
@@ -213,11 +217,51 @@ func nullInSet(v cty.Value) bool {
 // findLeak evaluates expr under every content of every variant group of the
 // variable and returns a description of a laundering pair, or "".
 func findLeak(expr hclsyntax.Expression, name string) (string, int) {
+	leak, pairs := findLeakIn(expr, name, false)
+	if leak != "" {
+		return leak, pairs
+	}
+	// the same with every other variable carrying a different mark: the
+	// result must carry *this* variable's mark, not just some mark
+	leak, p2 := findLeakIn(expr, name, true)
+	return leak, pairs + p2
+}
+
+// hasMark reports whether m is among the marks of v or of anything nested in v.
+func hasMark(v cty.Value, m any) bool {
+	_, pvm := v.UnmarkDeepWithPaths()
+	for _, p := range pvm {
+		if _, ok := p.Marks[m]; ok {
+			return true
+		}
+	}
+	return false
+}
+
+// withOthersMarked returns the pool scope with name bound to in and, when
+// background is set, every other variable marked as a whole with otherMark.
+func withOthersMarked(name string, in cty.Value, background bool) map[string]cty.Value {
+	m := pool.WithVar(name, in)
+	if background {
+		for k, v := range m {
+			if k != name {
+				m[k] = v.Mark(otherMark)
+			}
+		}
+	}
+	return m
+}
+
+func findLeakIn(expr hclsyntax.Expression, name string, background bool) (string, int) {
 	pairs := 0
+	note := ""
+	if background {
+		note = " (every other variable marked OTHER)"
+	}
 	for _, vr := range variants(name) {
 		var runs []run
 		for _, in := range vr.vals {
-			ctx := &hcl.EvalContext{Variables: pool.WithVar(name, in), Functions: pool.ImplFuncs()}
+			ctx := &hcl.EvalContext{Variables: withOthersMarked(name, in, background), Functions: pool.ImplFuncs()}
 			v, diags := expr.Value(ctx)
 			runs = append(runs, run{in, v, diags.HasErrors()})
 		}
@@ -235,13 +279,13 @@ func findLeak(expr hclsyntax.Expression, name string) (string, int) {
 				// tuple / list with a marked *null* element to a set drops that element's mark altogether
 				// (convert.Convert([null marked], set(T)) = set[null]). A run whose unmarked result holds a
 				// null inside a set is therefore not judged.
-				if (!a.out.ContainsMarked() && nullInSet(a.out)) || (!b.out.ContainsMarked() && nullInSet(b.out)) {
+				if (!hasMark(a.out, mark) && nullInSet(a.out)) || (!hasMark(b.out, mark) && nullInSet(b.out)) {
 					counters.Add("go_cty_null_set_element_mark_loss_not_judged", 1)
 					continue
 				}
-				if !a.out.ContainsMarked() || !b.out.ContainsMarked() {
-					return fmt.Sprintf("variable %s (%s):\n  %s = %s  ->  %s\n  %s = %s  ->  %s\nthe results differ, so both depend on the marked variable, but at least one carries no mark",
-						name, vr.desc, name, vfmt.V(a.in), vfmt.V(a.out), name, vfmt.V(b.in), vfmt.V(b.out)), pairs
+				if !hasMark(a.out, mark) || !hasMark(b.out, mark) {
+					return fmt.Sprintf("variable %s (%s)%s:\n  %s = %s  ->  %s\n  %s = %s  ->  %s\nthe results differ, so both depend on the marked variable, but at least one does not carry its mark",
+						name, vr.desc, note, name, vfmt.V(a.in), vfmt.V(a.out), name, vfmt.V(b.in), vfmt.V(b.out)), pairs
 				}
 			}
 		}
